@@ -29,6 +29,7 @@ type Config struct {
 	Concrete   map[string][]string // concrete inputs (translator validation mode)
 	Deadline   time.Time
 	NoSlice    bool
+	Calib      map[string]bool
 	Only       []string
 }
 
